@@ -43,7 +43,7 @@ func collectTermCases(c *vf.Check, module, cfg string, consts map[string]string,
 func C08(c *vf.Check) {
 	consts := map[string]string{
 		"MaxSize":  tier(c, "3", "4"),
-		"TapeLen":  tier(c, "3", "3"),
+		"TapeLen":  tier(c, "3", "2"),
 		"MaxCalls": tier(c, "4", "5"),
 	}
 	budget := 30
